@@ -816,7 +816,28 @@ func genRelayPlan(seed uint64, tier string, focus string) *Plan {
 		p.Ops = append(p.Ops, op)
 		p.Ops = append(p.Ops, hang...)
 		hang = nil
-		if op.S["next"] == "tcp" && op.Settle && g.chance(12) {
+		if op.S["next"] == "tcp" && op.Settle && g.chance(10) {
+			// the TCP next hop stops reading for some seconds (busy, swapped out) with little room left in its
+			// buffers: the proxy's writes towards it block. What it relays there meanwhile arrives whole, once, in order
+			p.Ops = append(p.Ops, Op{Kind: "sink-stall", ID: g.nextID(), S: map[string]string{"outOf": op.ID}, I: map[string]int{"ms": g.pick2(1500, 4500, 9000), "window": g.pick2(0, 100, 700, 3000)}})
+			for k, sep := range []string{"_", "~"} {
+				if k == 1 && g.chance(50) {
+					break
+				}
+				again := op
+				again.ID = strings.Replace(op.ID, "-", sep, 1)
+				again.Data = bytes.ReplaceAll(op.Data, []byte(op.ID), []byte(again.ID))
+				again.S = map[string]string{}
+				for kk, v := range op.S {
+					again.S[kk] = v
+				}
+				again.S["answer"] = ""
+				again.I = nil
+				again.Settle = k == 1 || g.chance(50)
+				p.Ops = append(p.Ops, again)
+			}
+			p.Ops[len(p.Ops)-1].Settle = true
+		} else if op.S["next"] == "tcp" && op.Settle && g.chance(12) {
 			// the TCP next hop takes the request and closes the connection (restart, idle timeout); the same request is
 			// then sent again: it must arrive there all the same, on a fresh connection
 			p.Ops = append(p.Ops, Op{Kind: "sink-hangup", ID: g.nextID(), S: map[string]string{"outOf": op.ID}})
@@ -935,6 +956,13 @@ func execRelay(t *testing.T, p *Plan) *Result {
 					}
 					st.judgeBurst(pending)
 					pending = nil
+				}
+			case "sink-stall":
+				if j := st.done[op.S["outOf"]]; j != nil && j.em != nil && j.em.E.Proto == "tcp" && len(pending) == 0 {
+					if end := w.sinkEnds[j.em.E.ConnID]; end != nil && !end.Closed() && !end.IsReset() {
+						end.Stall(time.Duration(op.I["ms"])*time.Millisecond, op.I["window"])
+						w.stat("probe:next-hop-stalled")
+					}
 				}
 			case "sink-hangup":
 				if j := st.done[op.S["outOf"]]; j != nil && j.em != nil && j.em.E.Proto == "tcp" && len(pending) == 0 {
